@@ -174,7 +174,7 @@ class C11(ConnProp):
     rule = ('error prefix A (every corruption kind, placed in request line / header / body-length position, with and without '
             'a partial line already buffered, any segmentation) followed by continuation B (valid requests, header-like '
             'lines, blank lines, garbage) x schedules; from the first ParseError on, a new HttpConnection with the same limit '
-            'receives exactly the same bytes and descriptors and must behave identically; non-trivial = distinct case in '
+            'receives exactly the same bytes and descriptors and must behave identically; at the server: good requests and a malformed one in one read, then another request; non-trivial = distinct case in '
             'which at least one read with data follows the first parse error')
 
     def cases(self, rng, tier):
@@ -214,6 +214,24 @@ class C11(ConnProp):
             stream = stream + small_stream(rng)[0]
             ops = [[12]] + reqgen.schedule(rng, stream, rng.choice(STYLES), buf=32) + [[2, rng.choice([1, 5, 1 << 20])] for _ in range(6)]
             out.append(self.mk(51200, stream, ops, {'kind': 'small', 'small': True}))
+        # at the server: complete requests parsed by the same read as a malformed one are dropped with the 400 and never
+        # yielded afterwards; the next well-formed request on the connection is served
+        for _ in range(150 if tier == 'quick' else 5000):
+            k = rng.choice([0, 1, 2, 2, 3, 4])
+            split = rng.random() < 0.3
+            goods = b''.join(b'GET /c0/g%d HTTP/1.1\r\n\r\n' % j for j in range(k))
+            bad = rng.choice([b'GET /c0/bad HTTP/9.9\r\n\r\n', b'PUT /c0/bad HTTP/1.1\r\nContent-Length: x\r\n\r\n',
+                              b'BREW /c0/bad HTTP/1.1\r\n\r\n', b'GET  /c0/bad HTTP/1.1\r\n\r\n',
+                              b'PUT /c0/bad HTTP/1.1\r\nContent-Length: 99999999\r\n\r\n'])
+            ops = [[0, 0], [11, 4]]
+            if split:
+                ops += [[1, 0, goods], [11, 6], [1, 0, bad], [11, 6]]
+            else:
+                ops += [[1, 0, goods + bad], [11, 6]]
+            ops += [[5, 0], [1, 0, b'GET /c0/after HTTP/1.1\r\n\r\n'], [11, 6]] + [[12, 0]] * (k + 1) + [[11, 6], [5, 0]]
+            want = ([b'/c0/g%d' % j for j in range(k)] if split else []) + [b'/c0/after']
+            out.append(([9, 0, ops], {'kind': 'server-error-then-request', 'k': k, 'split': split,
+                                      'want': [w.decode() for w in want]}))
         return out
 
     def project(self, line):
@@ -222,6 +240,22 @@ class C11(ConnProp):
     def oracle(self, cases, impl):
         v = []
         for cid, t, m in cases:
+            if m.get('kind') == 'server-error-then-request':
+                ys = []
+                bad = None
+                for ln in impl.get(cid, []):
+                    if ' poll Ok ' in ln:
+                        for r in ln.split(' | ')[1:]:
+                            mm = re.search(r' u=([0-9a-f-]+) ', r)
+                            ys.append(bytes.fromhex(mm.group(1).replace('-', '')).decode('latin-1') if mm else '?')
+                    elif (' poll Err' in ln or ' resp Err' in ln or ln.startswith('hang') or ln.startswith('panic')) and bad is None:
+                        bad = ln
+                if bad is not None or ys != m['want']:
+                    v.append({'case': t, 'small': False,
+                              'oracle': 'a request dropped with the 400 is never yielded afterwards; later well-formed requests are served',
+                              'expected': 'yields in order: %r' % (m['want'],), 'observed': (bad or repr(ys))[:300],
+                              'signature': 'C11:server-yields'})
+                continue
             for ln in impl.get(cid, []):
                 a, b = split_shadow(ln)
                 if b is None:
@@ -329,10 +363,12 @@ class C12(ConnProp):
 # ------------------------------------------------------------------------------------ C13
 def expect_request(rng, limit, n, version, expect_kind):
     hs = []
-    if expect_kind == 'yes':
-        hs.append(reqgen.expect_line(rng, ok=True))
-    elif expect_kind == 'unsupported':
-        hs.append(reqgen.expect_line(rng, ok=False))
+    # several Expect lines: an unsupported expectation is skipped and leaves the flag as it is
+    for k in expect_kind.split('+'):
+        if k == 'yes':
+            hs.append(reqgen.expect_line(rng, ok=True))
+        elif k == 'unsupported':
+            hs.append(reqgen.expect_line(rng, ok=False))
     if n is not None:
         hs.insert(rng.randint(0, len(hs)), b'Content-Length: %d' % n)
     if rng.random() < 0.4:
@@ -345,7 +381,7 @@ def expect_request(rng, limit, n, version, expect_kind):
 class C13(ConnProp):
     pid = 'C13'
     observables = 'bytes offered by try_write after every read (the queued interim responses), pending_write, deliveries'
-    rule = ('streams mixing requests with Expect (any case, padding, unsupported expectation values) and without, '
+    rule = ('streams mixing requests with Expect (any case, padding, unsupported expectation values, several Expect lines) and without, '
             'Content-Length in {absent, 0, 1.., L, L+1}, both versions, pipelined; schedules that deliver the header block '
             'alone, then flush the output, then the body; non-trivial = distinct case with at least one Expect request')
 
@@ -360,7 +396,7 @@ class C13(ConnProp):
             stopped = False
             nreq = rng.randint(1, 4)
             for _ in range(nreq):
-                ek = rng.choice(['yes', 'yes', 'no', 'unsupported'])
+                ek = rng.choice(['yes', 'yes', 'yes', 'no', 'unsupported', 'unsupported', 'yes+unsupported', 'unsupported+yes', 'yes+yes'])
                 nn = rng.choice([None, 0, 1, 2, limit - 1, limit, limit + 1, 17])
                 if nn is not None and nn < 0:
                     nn = 0
@@ -368,7 +404,7 @@ class C13(ConnProp):
                 head, body = expect_request(rng, limit, nn, ver, ek)
                 stream += head + body
                 if not stopped:
-                    if ek == 'yes' and nn and 0 < nn <= limit:
+                    if 'yes' in ek.split('+') and nn and 0 < nn <= limit:
                         want.append(ver)
                     if nn is not None and nn > limit:
                         stopped = True
@@ -487,7 +523,7 @@ class C04(ConnProp):
     pid = 'C04'
     observables = 'the error value and the read that returns it; delivered bodies'
     rule = ('limits L in {0..8,1023,1024,1025,51199,51200,51201,2^32-1} x declared lengths around L (x Expect) with the '
-            'stream cut right after the header terminator; request lines and header lines of 1000..1100 bytes at varying '
+            'stream cut right after the header terminator; declared lengths of 2^32 and beyond; request lines and header lines of 1000..1100 bytes at varying '
             'offsets after earlier requests and bodies x schedules; non-trivial = distinct case whose declared length is '
             'within 2 of L or whose long line is within 3 bytes of the buffer size')
 
@@ -515,6 +551,19 @@ class C04(ConnProp):
                     ops = cut_exact(rng, len(pre) + len(head)) + [[3, 100000], [2, rng.choice([1, 1 << 20])]]
                     out.append(self.mk(L, stream, ops, {'kind': 'limit', 'L': L, 'n': n, 'headlen': len(pre) + len(head),
                                                         'near': abs(d) <= 2}))
+        # declared lengths that do not fit 32 bits (n > L for every L): rejected when the header block completes, never
+        # taken modulo 2^32
+        for L in reqgen.LIMITS:
+            for n in (2 ** 32, 2 ** 32 + 1, 2 ** 32 + min(L, 7), 2 ** 32 + L, 2 ** 33 + 3, 2 ** 64, 2 ** 64 + min(L, 5), 10 ** 20 + 2):
+                for _ in range(1 if tier == 'quick' else 6):
+                    pre = b''.join(reqgen.gen_request(rng, 51200 if L > 51200 else L)[0] for _ in range(rng.randint(0, 1)))
+                    hs = [b'Content-Length: %d' % n] + ([b'Expect: 100-continue'] if rng.random() < 0.3 else [])
+                    rng.shuffle(hs)
+                    head = b'PUT /x HTTP/1.1\r\n' + b''.join(h + b'\r\n' for h in hs) + b'\r\n'
+                    stream = pre + head + b'b' * min(n % 2 ** 32, 3000) + b'GET /after HTTP/1.1\r\n\r\n'
+                    ops = reqgen.schedule(rng, stream, rng.choice(STYLES))
+                    out.append(self.mk(L, stream, ops, {'kind': 'limit-overflow', 'L': L, 'n': n, 'near': True,
+                                                        'npre': pre.count(b' HTTP/1.')}))
         # several Content-Length lines: the last acceptable one decides, also for the limit
         for _ in range(80 if tier == 'quick' else 4000):
             L = rng.choice([3, 4, 8, 100, 1024, 51200])
@@ -636,6 +685,12 @@ class C04(ConnProp):
                     mm = re.search(r' cl=(\d+) .* body=some:([0-9a-f]+)', x)
                     if mm and (len(mm.group(2)) // 2 != int(mm.group(1)) or int(mm.group(1)) > L):
                         v.append(self.viol(t, 'delivered body has the declared length and is within the limit', x[:200], 'body-bound'))
+            elif m['kind'] == 'limit-overflow':
+                reqs = [x for x in d if x.startswith('REQ')]
+                errs = [x for x in d if x.startswith('Err(')]
+                if len(reqs) != m['npre'] or not errs or 'ParseError' not in errs[0]:
+                    v.append(self.viol(t, 'declared length %d > L = %d: rejected after %d earlier requests, nothing of it delivered' % (m['n'], m['L'], m['npre']),
+                                       ' ; '.join(x[:80] for x in d[:4]), 'size-overflow'))
             elif m['kind'] == 'dup-cl':
                 L, last = m['L'], m['last']
                 head = d[0] if d else 'nothing'
